@@ -1742,6 +1742,9 @@ class multislater(wave_function_auto):
             wave_data["ref_det"],
         )
         green = self._calc_green_restricted(walker, wave_data)
+        # _det_overlap addresses rows by orbital number: put each row at its orbital
+        occ = jnp.nonzero(ref_det[0], size=self.nelec[0])[0]
+        green = jnp.zeros((self.norb, self.norb), dtype=green.dtype).at[occ].set(green)
 
         # overlap with the reference determinant
         overlap_0 = (
@@ -1806,6 +1809,13 @@ class multislater(wave_function_auto):
             wave_data["ref_det"],
         )
         green = self._calc_green(walker_up, walker_dn, wave_data)
+        # _det_overlap addresses rows by orbital number: put each row at its orbital
+        green = [
+            jnp.zeros((self.norb, self.norb), dtype=green[s].dtype)
+            .at[jnp.nonzero(ref_det[s], size=self.nelec[s])[0]]
+            .set(green[s])
+            for s in range(2)
+        ]
 
         # overlap with the reference determinant
         overlap_0 = jnp.linalg.det(
